@@ -4,9 +4,53 @@ from . import vecprops, vecrun
 from .vecgen import Cfg
 
 
+def _slot_correspondence(prop, report, tier, cases=None):
+    """Slot-level models (Slots.v / Erase.v / Alias.v / Throw.v) against the real element-moving helpers (lib/slotcorr.py).
+    cases: names of the case families that belong to the property (None = all)."""
+    from . import slotcorr
+    try:
+        r = slotcorr.run(tier)
+    except Exception as e:   # build failure of the driver, Coq evaluation failure ...
+        report.violation({"broken": ["slot correspondence: " + str(e)[-800:]], "no_failing_input_found": True},
+                         "slot-level correspondence could not run: " + str(e)[-300:], True)
+        return
+    per = {k: v for k, v in r.get("per_case", {}).items() if cases is None or k in cases}
+    ndiff = sum(v.get("differences", 0) for v in per.values()) if per else r.get("differences", 0)
+    report.coverage["slot_correspondence"] = {"cases_compared": sum(v.get("compared", 0) for v in per.values()) if per else r.get("cases_compared"),
+                                              "differences": ndiff, "families": sorted(per), "space": r.get("space"),
+                                              "model_functions": r.get("model_functions", [])[:40]}
+    for a in r.get("implementation_anomalies", [])[:3]:
+        report.violation({"case": str(a)[:600], "found_by": "slot driver", "no_failing_input_found": False},
+                         "slot driver: the real helper misbehaves: %s" % str(a)[:400])
+    for h in r.get("harness_problems", [])[:2]:
+        report.violation({"broken": ["slot correspondence harness: " + str(h)[:400]], "no_failing_input_found": True},
+                         "slot correspondence harness problem: %s" % str(h)[:300], True)
+    shown = 0
+    for d in r.get("first_differences", []):
+        name = str(d.get("case", d))
+        if cases is not None and not any(name.startswith(c + " ") or name == c for c in cases):
+            continue
+        if shown >= 3:
+            break
+        shown += 1
+        report.violation({"case": name, "implementation": d.get("impl", d.get("implementation")), "model": d.get("model"),
+                          "broken": ["corr:%s:slot-level" % prop], "found_by": "slot correspondence", "no_failing_input_found": True},
+                         "slot-level correspondence: model and implementation disagree on %s\n  impl : %s\n  model: %s"
+                         % (name, d.get("impl", d.get("implementation")), d.get("model")), True)
+
+
+SLOT_FAMILIES = {
+    "C02": ("insert_cnt", "shift_right_cnt", "shift_right1", "fill_after_shift", "erase", "insert_own"),
+    "C09": ("insert_cnt_th", "resize_grow", "assign_grow", "assign_shrink"),
+    "C10": ("insert_own",),
+}
+
+
 def _vector_prop(prop):
     def fn(report, tier):
         vecprops.check_vector_property(prop, report, tier)
+        if prop in SLOT_FAMILIES:
+            _slot_correspondence(prop, report, tier, SLOT_FAMILIES[prop])
         if prop in ("C02", "C06", "C05"):
             # the same ledgers on the sets (instrumented elements / ledger allocators of the set driver)
             from . import setprops
@@ -54,6 +98,7 @@ for _p in ("C03", "C04", "C11", "C12", "C19"):
 def _c09(report, tier):
     from . import coqbuild
     ok, broken = coqbuild.check_property("C09", report)
+    _slot_correspondence("C09", report, tier, SLOT_FAMILIES["C09"])
     n0 = len(report.violations)
     cov = vecprops.run_faults(tier, report)
     report.coverage.update(cov)
